@@ -6,6 +6,7 @@ CONSTANTS
   NotifyMode = "token"
   TempApps = {}
   TwoPhaseApps = {1, 2}
+  DrainOnlyApps = {}
   ExitMode = "recheck"
 INVARIANTS FIFO LockOK OneAtATime StageOK
 CONSTRAINT Mark
